@@ -41,6 +41,9 @@ structure Rows where
   cur : Option Row := none         -- lastcols
   /-- the driver statement is closed with the rows (one-shot Tx.QueryContext) -/
   closeStmt : Bool := false
+  /-- the rows hold a pooled connection of their own (false inside a transaction, whose
+      connection is held by the Tx) -/
+  holdsConn : Bool := true
 deriving Repr, Inhabited
 
 structure World where
@@ -56,7 +59,7 @@ def Rows.close (r : Rows) (w : World) : Rows × World × Option Err :=
   if r.closed then (r, w, none) else
   let w := w.emit .rowsClose
   let w := if r.closeStmt then w.emit .stmtClose else w
-  let w := { w with inUse := w.inUse - 1 }
+  let w := if r.holdsConn then { w with inUse := w.inUse - 1 } else w
   -- lasterr = lasterrOrErr(closeErr): a real fetch error is kept, otherwise the close error
   let lasterr := match r.lasterr with | some e => some e | none => r.closeErr
   ({ r with closed := true, lasterr := lasterr, cur := none }, w, r.closeErr)
@@ -121,8 +124,11 @@ deriving Repr, Inhabited
 /-- `Query.Iter` for a Query without stored error: runs the statement -/
 def iterOpen (s : Script) (w : World) : Iter × World :=
   let fail (e : Err) (w : World) : Iter × World := ({ hasOutputs := s.hasOutputs, err := some e }, w)
-  if s.onTx && s.txDone then fail .txDone w else
+  -- cached TX path: Tx.Stmt on a finished transaction yields a statement with a sticky
+  -- ErrTxDone, reported before the context is looked at
+  if s.onTx && s.txDone && s.cached then fail .txDone w else
   if s.ctxDone then fail .ctx w else          -- DB.conn / Tx.grabConn check the context first
+  if s.onTx && s.txDone then fail .txDone w else
   -- prepare: DB path on a cache miss; TX path without cached statement prepares one-shot
   let needPrepare := !s.cached
   let w1 := if needPrepare then w.emit .prepare else w
@@ -136,8 +142,8 @@ def iterOpen (s : Script) (w : World) : Iter × World :=
       | some e => fail e (if oneShot then w2.emit .stmtClose else w2)
       | none =>
         ({ hasOutputs := true,
-           rows := some { fetch := s.fetch, closeErr := s.closeErr, closeStmt := oneShot } },
-         { w2 with inUse := w2.inUse + 1 })
+           rows := some { fetch := s.fetch, closeErr := s.closeErr, closeStmt := oneShot, holdsConn := !s.onTx } },
+         if s.onTx then w2 else { w2 with inUse := w2.inUse + 1 })
     else
       let w2 := w1.emit .exec
       let w3 := if oneShot then w2.emit .stmtClose else w2
